@@ -119,14 +119,20 @@ fn build_specification(guard: &StringGuard) -> Result<Option<Specification>, syn
             let has_trim = relevant_sanitizers
                 .iter()
                 .any(|s| matches!(s, RelevantSanitizer::Trim));
+            // There may be more than one lower bound (e.g. `not_empty` together with
+            // `len_char_min`): the generated string has to satisfy the greatest of them.
             let min_len = relevant_validators
                 .iter()
-                .find_map(|v| {
+                .filter_map(|v| {
                     if let RelevantValidator::LenCharMin(value) = v {
                         Some(value.clone())
                     } else {
                         None
                     }
+                })
+                .reduce(|a, b| match (a, b) {
+                    (ValueOrExpr::Value(a), ValueOrExpr::Value(b)) => ValueOrExpr::Value(a.max(b)),
+                    (a, b) => ValueOrExpr::Expr(syn::parse_quote!(::core::cmp::max(#a, #b))),
                 })
                 .unwrap_or_else(|| ValueOrExpr::Value(0));
             let max_len = relevant_validators
